@@ -209,6 +209,16 @@ func (ev *SpecEnv) ident(name string) TV {
 			}
 		}
 	}
+	if ev.loop != nil && ev.fr != nil && !ev.inOld {
+		if _, bound := ev.quantBound[name]; !bound {
+			// a parameter reassigned before the loop: the invariant means its current value
+			if _, isParam := ev.fr.env[name]; isParam {
+				if tv, ok := ev.reassigned(name); ok {
+					return tv
+				}
+			}
+		}
+	}
 	if tv, ok := ev.vars[name]; ok {
 		return tv
 	}
@@ -234,6 +244,30 @@ func (ev *SpecEnv) ident(name string) TV {
 	}
 	unsupp("spec: unknown identifier %q (contract %s)", name, ev.cKey())
 	return TV{}
+}
+
+// reassigned: latest non-parameter SSA definition of a source variable that dominates the loop header.
+func (ev *SpecEnv) reassigned(name string) (TV, bool) {
+	fr := ev.fr
+	var best ssa.Value
+	for _, v := range fr.debug[name] {
+		if _, isParam := v.(*ssa.Parameter); isParam {
+			continue
+		}
+		if _, ok := fr.vals[v]; !ok {
+			continue
+		}
+		if in, ok := v.(ssa.Instruction); ok {
+			if !in.Block().Dominates(ev.loop.header) || in.Block() == ev.loop.header {
+				continue
+			}
+		}
+		best = v
+	}
+	if best == nil {
+		return TV{}, false
+	}
+	return TV{fr.val(best), best.Type()}, true
 }
 
 func (ev *SpecEnv) cKey() string {
